@@ -52,6 +52,9 @@ TEMPLATES = {
     "converter": ("<start> ::= <rec>+\n<rec> ::= <enc> '=' <plain> ':' <val> ';'\n<enc> ::= <letter>+ := encode(<plain>)\n<plain> ::= <digit>+ := decode(<enc>)\n"
                   "<letter> ::= 'a'|'b'|'c'|'d'|'e'|'f'|'g'|'h'|'i'|'j'\n<val> ::= <digit>+\n" + DIG,
                   ["int(<val>) % 7 == 3", "len(str(<val>)) >= 2", "int(<val>) > 50"]),
+    # generator output that parses several nonterminal levels deep, its inner symbols also used by ordinary fields
+    "deep": ("<start> ::= <tag> ':' <code> ':' <tail>\n<tag> ::= <digit>+\n<code> ::= <pair>{4} := rnd()\n<pair> ::= <digit> <digit>\n<tail> ::= <pair>+\n" + DIG,
+             ["int(<tag>) % 7 == 3", "len(str(<tail>)) >= 4", "int(<tag>) > 50", "str(<tail>).startswith('1')"]),
     "misfit": ("<start> ::= <id> ':' <body>\n<id> ::= <digit>{3} := misfit(0.3)\n<body> ::= <digit>+\n" + DIG,
                ["int(<body>) % 11 == 4", "len(str(<body>)) >= 2"]),
 }
